@@ -182,8 +182,12 @@ class Interval(Operation):
 
         arg = self.args[0]
         items = arg.split(' ', maxsplit=1)
+        if len(items) == 2 and not items[1].isidentifier():
+            # only `<quantity> <unit word>` can be written as INTERVAL '<quantity>' <unit>; anything else is printed as one string
+            items = [arg]
         # quote first element
-        items[0] = f"'{items[0]}'"
+        quoted = items[0].replace("'", "\\'")
+        items[0] = f"'{quoted}'"
         return "INTERVAL " + " ".join(items)
 
     def to_tree(self, *args, level=0, **kwargs):
